@@ -1,4 +1,5 @@
-import BoxoModel.C22.Steps
+import BoxoModel.C22.Window
+import BoxoModel.C22.Fetch
 /-!
 # C22 — Pinner state follows the pin model and failed calls change nothing
 
@@ -92,6 +93,31 @@ theorem c22_result_pin_recursive (dag : Dag) (s : St) (c name : Nat) (ctx : Ctx)
     (if s.present.contains c then s.present else c :: s.present) } c true name ctx
   simp only [step]
   exact ⟨this.1, fun h => this.2.1 h rfl, fun h1 h2 => this.2.2.1 h1 rfl h2, fun h1 h2 => this.2.2.2.1 h1 rfl h2⟩
+
+/-- the FetchGraph outcome used above is not a free parameter: on an acyclic DAG it is "the root and
+every block below it are in the block store" (`walk`, the model of merkledag.Walk over GetLinksDirect
+with a shared visited set, proved sound and complete) -/
+theorem c22_fetch_ok_iff (dag : Dag) (wf : dag.WF) (present : List Nat) (c : Nat) :
+    fetchOk dag present c = true ↔ c ∈ present ∧ ∀ y, Reach dag c y → y ∈ present := by
+  obtain ⟨rk, hrk, hn⟩ := wf
+  exact fetchOk_iff dag rk hrk hn present c
+
+/-- hence a recursive Pin that returns ok has every block of the pinned graph in the block store -/
+theorem c22_pin_recursive_has_closure (dag : Dag) (wf : dag.WF) (s : St) (c name : Nat) (ctx : Ctx)
+    (hok : (step dag s (.pin c true name ctx)).2 = .ok) :
+    let blocks := if s.present.contains c then s.present else c :: s.present
+    c ∈ blocks ∧ ∀ y, Reach dag c y → y ∈ blocks := by
+  intro blocks
+  have r := c22_result_pin_recursive dag s c name ctx
+  simp only [] at r
+  rw [← c22_fetch_ok_iff dag wf]
+  cases ctx with
+  | pre => rw [r.1 rfl] at hok; cases hok
+  | mid => rw [r.2.1 rfl] at hok; cases hok
+  | ok =>
+    cases hf : fetchOk dag blocks c with
+    | true => rfl
+    | false => rw [r.2.2.1 rfl hf] at hok; cases hok
 
 /-- which calls fail — PinWithMode: only Recursive (no fetch) and Direct are accepted -/
 theorem c22_result_pin_mode (dag : Dag) (s : St) (c name : Nat) (mode : Int) (ctx : Ctx) :
@@ -213,6 +239,32 @@ theorem c22_listing (s : St) (h : Inv s) (detailed : Bool) :
     rw [z] at e'; cases e'
     exact ⟨_, x, rfl, rfl, id, _, y, z, rfl⟩
 
+/-! ### a second call inside the window in which doPinRecursive / Update release the pinner lock
+
+`stepNested dag s A B` = call A (a recursive Pin or an Update) with the complete call B executed
+while A fetches blocks with the lock released (the harness runs B from inside A's first block fetch). -/
+
+/-- the invariant (records ↔ indexes, flag, fresh ids) survives every such interleaving -/
+theorem c22_window_inv (dag : Dag) (s : St) (opA opB : Op) (h : Inv s) : Inv (stepNested dag s opA opB).st :=
+  inv_stepNested dag h opA opB
+
+/-- so does "one record per (cid, mode)" (needs fix 6296254 for Update, see the counterexample below) -/
+theorem c22_window_unique (dag : Dag) (s : St) (opA opB : Op) (h : Inv s) (hu : Uniq s) :
+    Uniq (stepNested dag s opA opB).st :=
+  uniq_stepNested dag h hu opA opB
+
+/-- a call A that returns an error — before or after its window — made no datastore write -/
+theorem c22_window_failed_noop (dag : Dag) (s : St) (opA opB : Op)
+    (hf : (stepNested dag s opA opB).resA ≠ .ok) : (stepNested dag s opA opB).logA = [] :=
+  nested_failed_noop dag s opA opB hf
+
+/-- a recursive Pin that returns ok leaves its cid recursively pinned, whatever ran inside its window
+(including the `!found && dirty != dirtyBefore` early return) -/
+theorem c22_window_pin_ok (dag : Dag) (s : St) (c name : Nat) (opB : Op) (h : Inv s)
+    (hok : (stepNested dag s (.pin c true name .ok) opB).resA = .ok) :
+    IsR (stepNested dag s (.pin c true name .ok) opB).st c :=
+  nested_pin_ok dag h c name opB hok
+
 /-! ### the code before the fix violates the property (witness found by the harness, replayed here) -/
 
 /-- 0 → {1, 2}, 1 → {2}; block 2 is not in the block store -/
@@ -230,7 +282,29 @@ theorem c22_old_code_failed_call_unpins :
     isPinnedWithType exDag (pinRecursiveOld exDag { exS1 with log := [] } 0 true 2 .ok).1 0 5 = .no := by
   decide
 
+/-- 0 → {1}; every block present; cid 0 recursively pinned as "n1" -/
+def exDagW : Dag := { n := 2, links := fun i => if i = 0 then [1] else [] }
+def exW1 : St := (step exDagW { present := [0, 1] } (.pinMode 0 0 1 .ok)).1
+
+/-- `Update` as it was (no re-check after the window): PinWithMode(1, Recursive) inside the window of
+Update(0 → 1) leaves cid 1 with two recursive pins, after which Update(1 → 0) is refused although
+cid 1 is recursively pinned.  The repaired code answers "'to' cid was already recursively pinned". -/
+theorem c22_window_old_update_duplicates :
+    let sB := (step exDagW exW1 (.pinMode 1 0 3 .ok)).1
+    let r := updateResumeOld exDagW { sB with log := [] } 0 1 false 1
+    r.2 = .ok ∧ (r.1.store.idxR.search 1).length = 2 ∧
+    (step exDagW r.1 (.update 1 0 false .ok)).2 = .fromNotRec ∧
+    (stepNested exDagW exW1 (.update 0 1 false .ok) (.pinMode 1 0 3 .ok)).resA = .toRec := by
+  decide
+
 /-! ### non-vacuity -/
+
+/-- the early return of doPinRecursive: Pin(1) with PinWithMode(1, Recursive, "n3") inside its window
+returns ok without writing and keeps the other call's name -/
+example : (stepNested exDagW exW1 (.pin 1 true 2 .ok) (.pinMode 1 0 3 .ok)).resA = .ok ∧
+    (stepNested exDagW exW1 (.pin 1 true 2 .ok) (.pinMode 1 0 3 .ok)).logA = [] ∧
+    batchEntry exDagW (stepNested exDagW exW1 (.pin 1 true 2 .ok) (.pinMode 1 0 3 .ok)).st 0 true 1 = .recursive 3 := by
+  decide
 
 /-- the invariants hold of a non-trivial reachable state -/
 example : Inv exS1 ∧ Uniq exS1 ∧ exS1.store.NodupIdx :=
